@@ -1,203 +1,3 @@
--- GENERATED by tools/gen/c02_forces.py from src/mesh/cell.cpp, src/math_modules/vec3.cpp, include/utils.hpp — do not edit.
-import SimuVerif.Model.ForcesBase
-set_option linter.unusedVariables false
-namespace Simu.Gen.Forces
-open Simu
-variable {R : Type} [Add R] [Sub R] [Mul R] [Div R] [Neg R] [Lit R] [LT R] [LE R] [DecidableLT R] [DecidableLE R]
-/-- `cot` (include/utils.hpp) -/
-def cot (fx : FX R) (angle : R) : R :=
-  ((lit 1 : R) / (fx.tan angle))
-
-/-- `vec3::get_angle_with(const vec3& v)` -/
-def angleWithL (fx : FX R) (self v : V3 R) : R :=
-  let norm1 := (fx.sqrt (V3.normSq self))
-  let norm2 := (fx.sqrt (V3.normSq v))
-  let angle := (fx.acos ((V3.dot self v) / (norm1 * norm2)))
-  let angle := if (fx.isNaN angle = true) then (lit 1 : R) else angle
-  angle
-
-/-- `vec3::get_angle_with(vec3&& v)` -/
-def angleWithR (fx : FX R) (self v : V3 R) : R :=
-  let norm1 := (fx.sqrt (V3.normSq self))
-  let norm2 := (fx.sqrt (V3.normSq v))
-  let angle := (fx.acos ((V3.dot self v) / (norm1 * norm2)))
-  let angle := if (¬ (fx.isFinite angle = true)) then (lit 1 : R) else angle
-  angle
-
-/-- `vec3::rotate_around_axis` (Rodrigues formula) -/
-def rotateAroundAxis (fx : FX R) (self axis : V3 R) (angle : R) : V3 R :=
-  (((self * (fx.cos angle)) + ((V3.cross axis self) * (fx.sin angle))) + ((axis * ((lit 1 : R) - (fx.cos angle))) * (V3.dot axis self)))
-
-/-- `cell::update_face_normal_and_area(face&)`: (unit normal, area) of the face with node positions p1 p2 p3 -/
-def faceNormalArea (fx : FX R) (p1 p2 p3 : V3 R) : V3 R × R :=
-  let face_normal := (V3.cross (p2 - p1) (p3 - p1))
-  let face_normal_norm := (fx.sqrt (V3.normSq face_normal))
-  let out_area := (((lit 1 : R) / (lit 2 : R)) * face_normal_norm)
-  let face_normal := (if (fx.eqb face_normal_norm (lit 0 : R) = true) then (V3.mk (lit 0 : R) (lit 0 : R) (lit 0 : R)) else (face_normal / face_normal_norm))
-  let out_normal := face_normal
-  (out_normal, out_area)
-
-/-- contribution of one face to six times the signed volume (`compute_volume`) -/
-def volTerm (p1 p2 p3 : V3 R) : R :=
-  let (x1, y1, z1) := (p1.x, p1.y, p1.z)
-  let (x2, y2, z2) := (p2.x, p2.y, p2.z)
-  let (x3, y3, z3) := (p3.x, p3.y, p3.z)
-  ((((((((-x3) * y2) * z1) + ((x2 * y3) * z1)) + ((x3 * y1) * z2)) - ((x1 * y3) * z2)) - ((x2 * y1) * z3)) + ((x1 * y2) * z3))
-
-/-- what `compute_volume` does with the accumulated sum -/
-def volFinish (vol : R) : R :=
-  let vol := (vol / (lit 6 : R))
-  let vol := (fabsR vol)
-  vol
-
-/-- `cell::update_target_volume`: the new target volume -/
-def targetVolume (target_volume_m time_step growth_rate_m ct_min_vol : R) : R :=
-  let target_volume_m := (target_volume_m + (time_step * growth_rate_m))
-  let target_volume_m := if (target_volume_m < ct_min_vol) then ct_min_vol else target_volume_m
-  target_volume_m
-
-/-- `cell::update_pressure`: the new pressure -/
-def pressure (fx : FX R) (ct_bulk_modulus ct_max_pressure volume_m target_volume_m : R) : R :=
-  let pressure_m := ((-ct_bulk_modulus) * (fx.ln (volume_m / target_volume_m)))
-  let pressure_m := if (ct_max_pressure < pressure_m) then ct_max_pressure else pressure_m
-  pressure_m
-
-/-- body of the face loop of `cell::apply_pressure_on_surface`: forces added to the three nodes -/
-def pressureFace (f_normal : V3 R) (f_area pressure_m : R) : V3 R × V3 R × V3 R :=
-  let face_normal := f_normal
-  let face_area := f_area
-  let face_pressure := (((face_normal * pressure_m) * face_area) / (lit 3 : R))
-  (face_pressure, face_pressure, face_pressure)
-
-/-- prelude of `apply_surface_tension_and_membrane_elasticity`: the target area -/
-def tensionTargetArea (fx : FX R) (ct_target_isoperimetric_ratio volume_m : R) : R :=
-  (fx.cbrt ((ct_target_isoperimetric_ratio * volume_m) * volume_m))
-
-/-- body of the face loop of `apply_surface_tension_and_membrane_elasticity` -/
-def tensionFace (fx : FX R) (p1 p2 p3 f_normal : V3 R) (f_area face_type_surface_tension ct_area_elasticity_modulus area_m target_area_m : R) : V3 R × V3 R × V3 R :=
-  if (fx.eqb f_area (lit 0 : R) = true) then
-    (V3.zero, V3.zero, V3.zero)
-  else
-  let grad_pos_n1 := ((V3.cross f_normal (p2 - p3)) * (-((lit 1 : R) / (lit 2 : R))))
-  let grad_pos_n2 := ((V3.cross f_normal (p3 - p1)) * (-((lit 1 : R) / (lit 2 : R))))
-  let grad_pos_n3 := ((V3.cross f_normal (p1 - p2)) * (-((lit 1 : R) / (lit 2 : R))))
-  let membrane_elasticity_factor := ((-(ct_area_elasticity_modulus / target_area_m)) * ((area_m / target_area_m) - (lit 1 : R)))
-  let force_factor := ((-face_type_surface_tension) + membrane_elasticity_factor)
-  let force_n1 := (grad_pos_n1 * force_factor)
-  let force_n2 := (grad_pos_n2 * force_factor)
-  let force_n3 := (grad_pos_n3 * force_factor)
-  (force_n1, force_n2, force_n3)
-
-/-- `cell::get_angle_gradient` -/
-def angleGradient (fx : FX R) (i j k : V3 R) : V3 R × V3 R × V3 R :=
-  let a := (j - i)
-  let b := (k - i)
-  let d_ab := (V3.dot a b)
-  let d_aa := (V3.dot a a)
-  let d_bb := (V3.dot b b)
-  let norm_a := (fx.sqrt d_aa)
-  let norm_b := (fx.sqrt d_bb)
-  let denominator := (fx.sqrt ((lit 1 : R) - ((d_ab * d_ab) / (d_aa * d_bb))))
-  let factor_1 := (norm_b * (fx.pow d_aa ((lit 3 : R) / (lit 2 : R))))
-  let factor_2 := (norm_a * (fx.pow d_bb ((lit 3 : R) / (lit 2 : R))))
-  if ((((fx.almostEq denominator (lit 0 : R) = true) ∨ (¬ (fx.isFinite denominator = true))) ∨ (fx.almostEq norm_a (lit 0 : R) = true)) ∨ (fx.almostEq norm_b (lit 0 : R) = true)) then
-    ((V3.mk (lit 0 : R) (lit 0 : R) (lit 0 : R)), (V3.mk (lit 0 : R) (lit 0 : R) (lit 0 : R)), (V3.mk (lit 0 : R) (lit 0 : R) (lit 0 : R)))
-  else
-  if ((fx.almostEq factor_1 (lit 0 : R) = true) ∨ (¬ (fx.isFinite factor_1 = true))) then
-    ((V3.mk (lit 0 : R) (lit 0 : R) (lit 0 : R)), (V3.mk (lit 0 : R) (lit 0 : R) (lit 0 : R)), (V3.mk (lit 0 : R) (lit 0 : R) (lit 0 : R)))
-  else
-  if ((fx.almostEq factor_2 (lit 0 : R) = true) ∨ (¬ (fx.isFinite factor_2 = true))) then
-    ((V3.mk (lit 0 : R) (lit 0 : R) (lit 0 : R)), (V3.mk (lit 0 : R) (lit 0 : R) (lit 0 : R)), (V3.mk (lit 0 : R) (lit 0 : R) (lit 0 : R)))
-  else
-  let grad_theta_i := (V3.mk ((-(((((((lit 2 : R) * i.x) - j.x) - k.x) / (norm_a * norm_b)) + ((d_ab * a.x) / factor_1)) + ((d_ab * b.x) / factor_2))) / denominator) ((-(((((((lit 2 : R) * i.y) - j.y) - k.y) / (norm_a * norm_b)) + ((d_ab * a.y) / factor_1)) + ((d_ab * b.y) / factor_2))) / denominator) ((-(((((((lit 2 : R) * i.z) - j.z) - k.z) / (norm_a * norm_b)) + ((d_ab * a.z) / factor_1)) + ((d_ab * b.z) / factor_2))) / denominator))
-  let grad_theta_j := (V3.mk ((-((((-i.x) + k.x) / (norm_a * norm_b)) - ((d_ab * a.x) / factor_1))) / denominator) ((-((((-i.y) + k.y) / (norm_a * norm_b)) - ((d_ab * a.y) / factor_1))) / denominator) ((-((((-i.z) + k.z) / (norm_a * norm_b)) - ((d_ab * a.z) / factor_1))) / denominator))
-  let grad_theta_k := (V3.mk ((-((((-i.x) + j.x) / (norm_a * norm_b)) - ((d_ab * b.x) / factor_2))) / denominator) ((-((((-i.y) + j.y) / (norm_a * norm_b)) - ((d_ab * b.y) / factor_2))) / denominator) ((-((((-i.z) + j.z) / (norm_a * norm_b)) - ((d_ab * b.z) / factor_2))) / denominator))
-  (grad_theta_i, grad_theta_j, grad_theta_k)
-
-/-- `cell::regularize_face_angles` -/
-def angleFace (fx : FX R) (p1 p2 p3 : V3 R) (ct_angle_regularization_factor : R) : V3 R × V3 R × V3 R :=
-  if (fx.eqb ct_angle_regularization_factor (lit 0 : R) = true) then
-    (V3.zero, V3.zero, V3.zero)
-  else
-  let angle_1 := (angleWithR fx (p2 - p1) (p3 - p1))
-  let angle_2 := (angleWithR fx (p1 - p2) (p3 - p2))
-  let angle_3 := (angleWithR fx (p1 - p3) (p2 - p3))
-  let min_angle := (((lit 10 : R) * fx.pi) / (lit 180 : R))
-  let max_angle := (((lit 170 : R) * fx.pi) / (lit 180 : R))
-  if (((angle_1 < min_angle) ∨ (angle_2 < min_angle)) ∨ (angle_3 < min_angle)) then
-    (V3.zero, V3.zero, V3.zero)
-  else
-  if (((max_angle < angle_1) ∨ (max_angle < angle_2)) ∨ (max_angle < angle_3)) then
-    (V3.zero, V3.zero, V3.zero)
-  else
-  let (grad_angle_1_i, grad_angle_1_j, grad_angle_1_k) := (angleGradient fx p1 p2 p3)
-  let (grad_angle_2_i, grad_angle_2_j, grad_angle_2_k) := (angleGradient fx p2 p1 p3)
-  let (grad_angle_3_i, grad_angle_3_j, grad_angle_3_k) := (angleGradient fx p3 p1 p2)
-  if (((((((((fx.isFinite grad_angle_1_i.x = true) ∧ (fx.isFinite grad_angle_1_i.y = true)) ∧ (fx.isFinite grad_angle_1_i.z = true)) ∧ (fx.isFinite grad_angle_2_i.x = true)) ∧ (fx.isFinite grad_angle_2_i.y = true)) ∧ (fx.isFinite grad_angle_2_i.z = true)) ∧ (fx.isFinite grad_angle_3_i.x = true)) ∧ (fx.isFinite grad_angle_3_i.y = true)) ∧ (fx.isFinite grad_angle_3_i.z = true)) then
-    let force_n1 := ((((grad_angle_1_i * ((fx.pi / (lit 3 : R)) - angle_1)) + (grad_angle_2_j * ((fx.pi / (lit 3 : R)) - angle_2))) + (grad_angle_3_j * ((fx.pi / (lit 3 : R)) - angle_3))) * ct_angle_regularization_factor)
-    let force_n2 := ((((grad_angle_1_j * ((fx.pi / (lit 3 : R)) - angle_1)) + (grad_angle_2_i * ((fx.pi / (lit 3 : R)) - angle_2))) + (grad_angle_3_k * ((fx.pi / (lit 3 : R)) - angle_3))) * ct_angle_regularization_factor)
-    let force_n3 := ((((grad_angle_1_k * ((fx.pi / (lit 3 : R)) - angle_1)) + (grad_angle_2_k * ((fx.pi / (lit 3 : R)) - angle_2))) + (grad_angle_3_i * ((fx.pi / (lit 3 : R)) - angle_3))) * ct_angle_regularization_factor)
-    (force_n1, force_n2, force_n3)
-  else
-  (V3.zero, V3.zero, V3.zero)
-
-/-- declarations before, and body of, the edge loop of `cell::apply_bending_forces`:
-    p1 p2 the nodes of the edge (`e.n1()`, `e.n2()`), p3 / p4 the nodes opposite to it in the faces
-    f1 = `e.f1()` / f2 = `e.f2()`, whose cached normal, area and bending modulus are the other arguments -/
-def bendingHinge (fx : FX R) (p1 p2 p3 p4 f1_normal f2_normal : V3 R) (f1_area f2_area face_type_1_bending_modulus face_type_2_bending_modulus : R) : V3 R × V3 R × V3 R × V3 R :=
-  let max_angle_threshold := (((lit 135 : R) * fx.pi) / (lit 180 : R))
-  let avg_bending_stiffness := ((face_type_1_bending_modulus + face_type_2_bending_modulus) / (lit 2 : R))
-  let sum_face_areas := (f1_area + f2_area)
-  let normal_1 := f1_normal
-  let normal_2 := f2_normal
-  let e0 := (p2 - p1)
-  let e1 := (p3 - p1)
-  let e2 := (p4 - p1)
-  let e3 := (p3 - p2)
-  let e4 := (p4 - p2)
-  let alpha_1 := (angleWithL fx e0 e1)
-  let alpha_2 := (angleWithL fx e0 e2)
-  let alpha_3 := (angleWithR fx e3 (e0 * (-(lit 1 : R))))
-  let alpha_4 := (angleWithR fx e4 (e0 * (-(lit 1 : R))))
-  let dot := (V3.dot normal_1 normal_2)
-  let theta := (if ((lit 1 : R) ≤ dot) then (lit 0 : R) else (if (dot ≤ (-(lit 1 : R))) then fx.pi else (fx.acos dot)))
-  if (max_angle_threshold < theta) then
-    (V3.zero, V3.zero, V3.zero, V3.zero)
-  else
-  let theta := if ((lit 0 : R) < (V3.dot e2 normal_1)) then (((lit 2 : R) * fx.pi) - theta) else theta
-  let theta := (fx.pi - theta)
-  let edge_length := (fx.sqrt (V3.normSq e0))
-  let prefactor_1 := (((-(lit 3 : R)) * ((lit 1 : R) + (fx.cos theta))) * avg_bending_stiffness)
-  let prefactor_2 := ((((((lit 3 : R) * edge_length) * edge_length) / sum_face_areas) * (fx.sin theta)) * avg_bending_stiffness)
-  if (((fx.eqb edge_length (lit 0 : R) = true) ∨ (fx.eqb f1_area (lit 0 : R) = true)) ∨ (fx.eqb f2_area (lit 0 : R) = true)) then
-    (V3.zero, V3.zero, V3.zero, V3.zero)
-  else
-  if ((((fx.eqb alpha_1 (lit 0 : R) = true) ∨ (fx.eqb alpha_2 (lit 0 : R) = true)) ∨ (fx.eqb alpha_3 (lit 0 : R) = true)) ∨ (fx.eqb alpha_4 (lit 0 : R) = true)) then
-    (V3.zero, V3.zero, V3.zero, V3.zero)
-  else
-  let grad_x0_theta := (((normal_1 * (cot fx alpha_3)) + (normal_2 * (cot fx alpha_4))) * ((-(lit 1 : R)) / edge_length))
-  let grad_x1_theta := (((normal_1 * (cot fx alpha_1)) + (normal_2 * (cot fx alpha_2))) * ((-(lit 1 : R)) / edge_length))
-  let grad_x2_theta := (normal_1 * (edge_length / ((lit 2 : R) * f1_area)))
-  let grad_x3_theta := (normal_2 * (edge_length / ((lit 2 : R) * f2_area)))
-  let t1 := (rotateAroundAxis fx e1 normal_1 (fx.pi / (lit 2 : R)))
-  let t2 := (rotateAroundAxis fx e2 normal_2 ((-fx.pi) / (lit 2 : R)))
-  let t3 := (rotateAroundAxis fx e3 normal_1 ((-fx.pi) / (lit 2 : R)))
-  let t4 := (rotateAroundAxis fx e4 normal_2 (fx.pi / (lit 2 : R)))
-  let t0_0 := (rotateAroundAxis fx e0 normal_1 ((-fx.pi) / (lit 2 : R)))
-  let t0_1 := (rotateAroundAxis fx e0 normal_2 (fx.pi / (lit 2 : R)))
-  let prefactor_3 := ((edge_length * edge_length) / (((lit 2 : R) * sum_face_areas) * sum_face_areas))
-  let grad_x0_ip := ((e0 * ((-(lit 2 : R)) / sum_face_areas)) + ((t3 + t4) * prefactor_3))
-  let grad_x1_ip := ((e0 * ((lit 2 : R) / sum_face_areas)) + ((t1 + t2) * prefactor_3))
-  let grad_x2_ip := (t0_0 * prefactor_3)
-  let grad_x3_ip := (t0_1 * prefactor_3)
-  let f_bend_x0 := ((grad_x0_ip * prefactor_1) + (grad_x0_theta * prefactor_2))
-  let f_bend_x1 := ((grad_x1_ip * prefactor_1) + (grad_x1_theta * prefactor_2))
-  let f_bend_x2 := ((grad_x2_ip * prefactor_1) + (grad_x2_theta * prefactor_2))
-  let f_bend_x3 := ((grad_x3_ip * prefactor_1) + (grad_x3_theta * prefactor_2))
-  (f_bend_x0, f_bend_x1, f_bend_x2, f_bend_x3)
-
-/-- the sequence of calls in `cell::apply_internal_forces` (preprocessor-guarded tail excluded) -/
-def orchestration : List String :=
-  ["update_all_face_normals_and_areas()", "area_=compute_area()", "volume_=compute_volume()", "update_target_volume(time_step)", "update_pressure()", "apply_pressure_on_surface()", "apply_surface_tension_and_membrane_elasticity()", "apply_bending_forces()", "regularize_all_face_angles()"]
-
-end Simu.Gen.Forces
+-- GENERATED: translation FAILED
+#eval (throw (IO.userError "translator failed for Forces: tension: unexpected token '['") : IO Unit)
+translator_failed
